@@ -59,6 +59,7 @@
 //! ```
 
 use crate::config::Config;
+use crate::node::PortTag;
 use crate::port::port_name::PortName;
 use crate::service::SharedServiceState;
 use crate::service::config_scheme::event_config;
@@ -127,7 +128,7 @@ pub struct Listener<Service: service::Service> {
     // the struct.
     // Otherwise the process might crash during cleanup, has already removed the tag but other resources
     // are still existing. This would make a cleanup from another process impossible.
-    port_tag: Service::StaticStorage,
+    port_tag: PortTag<Service>,
 }
 
 unsafe impl<Service: service::Service> Send for Listener<Service> where
@@ -170,7 +171,7 @@ impl<Service: service::Service> Abandonable for Listener<Service> {
             Service::ArcThreadSafetyPolicy::abandon_in_place(NonNull::from_mut(&mut this.listener))
         };
         unsafe { SharedServiceState::abandon_in_place(NonNull::from_mut(&mut this.service_state)) };
-        unsafe { Service::StaticStorage::abandon_in_place(NonNull::from_mut(&mut this.port_tag)) };
+        unsafe { PortTag::<Service>::abandon_in_place(NonNull::from_mut(&mut this.port_tag)) };
     }
 }
 
